@@ -108,3 +108,53 @@ Section AnyStore.
     - rewrite (H2 eq_refl). reflexivity.
   Qed.
 End AnyStore.
+
+(* repeating a whole sequence of operations on its own output changes nothing
+   that a reader can see, whatever the store held before the first run *)
+Lemma last_written_app_any (chunk bytes : Type) (encode : list N -> chunk -> outcome bytes) scales :
+  forall l1 l2 k c acc,
+  last_written chunk bytes encode scales (l1 ++ l2) k c acc
+  = last_written chunk bytes encode scales l2 k c (last_written chunk bytes encode scales l1 k c acc).
+Proof.
+  induction l1 as [|o l1 IH]; intros l2 k c acc; [reflexivity|].
+  cbn [app last_written]. destruct o as [ch k' c'|k' c'].
+  - destruct (write_chunk chunk bytes encode scales [] ch k' c'); try apply IH.
+    destruct (key_eqb k k' && coords_eqb c c'); apply IH.
+  - apply IH.
+Qed.
+
+Theorem repeat_any_store :
+  forall (chunk bytes : Type) (encode : list N -> chunk -> outcome bytes)
+         (decode : list N -> bytes -> triple -> outcome chunk) (shape_of : chunk -> triple),
+  (forall k ch b, encode k ch = Ok b -> decode k b (shape_of ch) = Ok ch) ->
+  forall scales (st0 : store bytes) ops k c,
+  Forall (well_shaped chunk shape_of) ops ->
+  check_valid scales k c = Ok tt ->
+  read_chunk chunk bytes decode scales (fst (run chunk bytes encode decode scales st0 (ops ++ ops))) k c
+  = read_chunk chunk bytes decode scales (fst (run chunk bytes encode decode scales st0 ops)) k c.
+Proof.
+  intros chunk bytes encode decode shape_of Hrt scales st0 ops k c HF Hv.
+  assert (Forall (well_shaped chunk shape_of) (ops ++ ops)) as HF2 by (apply Forall_app; split; exact HF).
+  rewrite (io_refinement_any_store chunk bytes encode decode shape_of Hrt scales st0 _ k c HF2 Hv).
+  rewrite (io_refinement_any_store chunk bytes encode decode shape_of Hrt scales st0 _ k c HF Hv).
+  rewrite last_written_app_any.
+  destruct (last_written chunk bytes encode scales ops k c None) as [x|] eqn:E.
+  - destruct (last_written chunk bytes encode scales ops k c (Some x)) as [y|] eqn:E2.
+    + (* the second run either overwrites with its own last write, which is the same as the first run's *)
+      assert (y = x) as ->.
+      { clear - E E2. revert E E2. generalize (@None chunk). intros a E E2.
+        (* last_written is "constant or identity" in its accumulator *)
+        revert a x y E E2. induction ops as [|o r IH]; intros a x y E E2.
+        - cbn in *. congruence.
+        - cbn [last_written] in *. destruct o as [ch k' c'|k' c'].
+          + destruct (write_chunk chunk bytes encode scales [] ch k' c').
+            * destruct (key_eqb k k' && coords_eqb c c').
+              -- (* both runs continue from Some ch *) congruence.
+              -- eapply IH; eassumption.
+            * eapply IH; eassumption. * eapply IH; eassumption. * eapply IH; eassumption.
+            * eapply IH; eassumption. * eapply IH; eassumption. * eapply IH; eassumption.
+          + eapply IH; eassumption. }
+      reflexivity.
+    + exfalso. exact (last_written_some chunk bytes encode scales ops k c x E2).
+  - rewrite E. reflexivity.
+Qed.
